@@ -1288,6 +1288,19 @@ try:
         w.encrypt(user_password='', owner_password='owner', algorithm=alg)
         p = outdir + '/enc_' + alg.lower() + '.pdf'
         w.write(p); made['enc_' + alg.lower()] = p
+        # the same security handler spelled differently: the crypt filter may have any name (it is resolved
+        # through /StmF and /StrF); same-length renaming keeps the xref valid
+        raw = open(p, 'rb').read()
+        if raw.count(b'/StdCF') >= 3 and (alg == 'AES-128' or sys.argv[3] == 'thorough'):
+            for j, nm in enumerate((b'/AESCF', b'/MyCF1') if sys.argv[3] == 'thorough' else (b'/AESCF',)):
+                q = outdir + '/enc_' + alg.lower() + '_cf-renamed%d.pdf' % j
+                open(q, 'wb').write(raw.replace(b'/StdCF', nm)); made['enc_' + alg.lower() + '_cf-renamed%d' % j] = q
+    # RC4 security handlers (no AES needed at all)
+    for alg in ('RC4-128', 'RC4-40'):
+        w = pypdf.PdfWriter(clone_from=pypdf.PdfReader(outdir + '/enc_aes-128.pdf'))
+        w.encrypt(user_password='', owner_password='owner', algorithm=alg)
+        p = outdir + '/enc_' + alg.lower() + '.pdf'
+        w.write(p); made['enc_' + alg.lower()] = p
 except Exception as e:
     made['enc_error'] = repr(e)
 print('RESULT' + json.dumps(made))
@@ -1456,6 +1469,7 @@ GLOBAL_MUTATORS = {
     "threading.settrace", "threading.setprofile", "threading.stack_size",
     "locale.setlocale", "os.chdir", "os.putenv", "os.unsetenv", "os.umask", "os.environ.update", "os.environ.setdefault",
     "os.environ.pop", "os.environ.clear", "warnings.filterwarnings", "warnings.simplefilter", "warnings.resetwarnings",
+    "warnings.catch_warnings",
     "logging.basicConfig", "logging.disable", "logging.setLoggerClass", "logging.captureWarnings", "logging.addLevelName",
     "signal.signal", "signal.alarm", "signal.setitimer", "socket.setdefaulttimeout", "random.seed", "random.setstate",
     "codecs.register", "codecs.register_error", "xml.etree.ElementTree.register_namespace", "csv.field_size_limit",
@@ -1568,9 +1582,10 @@ def global_mutation_inventory(ctx):
             if callee is None:
                 continue
             cls = None
-            if scoped and callee.startswith("warnings."):
-                cls = "scoped by `with warnings.catch_warnings()`"
-            elif (rel, fn.split(".")[0], callee) in GLOBAL_SITE_ALLOW:
+            # NOTE: `with warnings.catch_warnings()` is a save/restore of the interpreter-wide filter list that is only
+            # correct for strictly nested (single-threaded) use - it is no classification; such sites need an entry in
+            # GLOBAL_SITE_ALLOW naming the lock that serialises them
+            if (rel, fn.split(".")[0], callee) in GLOBAL_SITE_ALLOW:
                 cls = GLOBAL_SITE_ALLOW[(rel, fn.split(".")[0], callee)]
             elif main and (rel, "<module>", callee) in GLOBAL_SITE_ALLOW:
                 cls = GLOBAL_SITE_ALLOW[(rel, "<module>", callee)]
@@ -2026,6 +2041,47 @@ def font_cache_checks(ctx, pe, world, wirecard, variant, base):
         pe._FONT_CACHE.clear()
 
 
+def self_overlap_checks(ctx, mon, docs, base, reps, budget_s=90.0, stop_at_first=False):
+    """Every given document is extracted by TWO overlapping threads (`reps` times each, switch interval 1e-6): the
+    digests must equal the isolated baseline and the residue snapshot must be unchanged afterwards.  This is the
+    generator for defects that need two extractions of the same kind to overlap (save/restore of interpreter-wide
+    settings that is only correct when nested, shared per-format state): the finding names the document."""
+    t0 = time.time()
+    sw = sys.getswitchinterval()
+    for d in docs:
+        if time.time() - t0 > budget_s:
+            ctx.count("self-overlap:skipped-for-time")
+            continue
+        nv = len(ctx.violations)
+        bad, lock = [], threading.Lock()
+        sys.setswitchinterval(1e-6)
+        try:
+            def w():
+                for _ in range(reps):
+                    got = extract_digest(d)
+                    if base is not None and got != base.get(d, got):
+                        with lock:
+                            bad.append(got)
+            ths = [threading.Thread(target=w) for _ in range(2)]
+            for t in ths:
+                t.start()
+            for t in ths:
+                t.join()
+        finally:
+            sys.setswitchinterval(sw)
+        name = Path(d).name
+        if bad:
+            ctx.finding(f"concurrent-interference:{name}", f"{name} extracted by two overlapping threads gives {bad[0]}, isolated "
+                        f"baseline {base.get(d)} ({len(bad)} of {2 * reps} extractions)",
+                        {"document": d, "threads": 2, "repetitions": reps, "got": bad[0], "baseline": base.get(d)})
+        mon.step(f"2 overlapping threads x {reps} extractions of {name}", "concurrent",
+                 {"document": d, "threads": 2, "repetitions": reps, "switchinterval": 1e-6}, key=f"concurrent:{name}")
+        ctx.case(("self-overlap", name), True, kind="self-overlap")
+        if stop_at_first and len(ctx.violations) > nv:
+            return d
+    return None
+
+
 def workload_checks(ctx, pe, aes, world, docs, base, tmproot, special, aes0=False):
     rng = ctx.rng
     import sharepoint2text  # noqa
@@ -2094,6 +2150,19 @@ def workload_checks(ctx, pe, aes, world, docs, base, tmproot, special, aes0=Fals
         ctx.finding("type-registry:refill-differs", "serialization._TYPE_REGISTRY differs when refilled", {})
     ctx.case(("type-registry", len(reg1), len(reg_before)), True, kind="type-registry")
 
+    # ---- two overlapping extractions of the same kind, for one (small, extractable) document per extractor module
+    from sharepoint2text.parsing import router as _router
+    fam = {}
+    for d in sorted(fast, key=lambda q: os.path.getsize(q)):
+        if base[d].startswith("ok:") and os.path.getsize(d) < 200_000:
+            try:
+                fam.setdefault((_router.get_extractor(d).__module__, Path(d).suffix), d)
+            except Exception:  # noqa
+                pass
+    t_o = time.time()
+    self_overlap_checks(ctx, mon, list(fam.values()), base, ctx.n(16, 40))
+    ctx.extra.setdefault("phase_s", {})["self-overlap"] = round(time.time() - t_o, 1)
+
     # ---- randomised pre-emptive schedules over mixed-format workloads
     sw = sys.getswitchinterval()
     nthreads = 8
@@ -2151,8 +2220,57 @@ def workload_checks(ctx, pe, aes, world, docs, base, tmproot, special, aes0=Fals
                     f"{snapc['char_map_depth']} levels deep (counter {snapc['char_map_counter']})",
                     {"threads": nthreads, "after": snapc})
         world.reset()
+    nviol = len(ctx.violations)
     residue("pre-emptive workloads", [])
+    if len(ctx.violations) > nviol:
+        mon.reported.clear()
+        self_overlap_checks(ctx, mon, sorted(set(d for w in work for d in w), key=lambda d: os.path.getsize(d)), None, 12,
+                            budget_s=60.0, stop_at_first=True)
     pe._FONT_CACHE.clear()
+
+
+_HISTORY_SNIPPET = r"""
+import sys, json, logging
+logging.disable(logging.CRITICAL)
+sys.path.insert(0, '/verif/tools'); sys.path.insert(0, '/verif/tools/props')
+import c15
+print('RESULT' + json.dumps([c15.extract_digest(p) for p in json.loads(sys.stdin.read())]))
+"""
+
+
+def fresh_process_history_checks(ctx, family, installers, base):
+    """Histories that cannot be observed inside one long-lived process because the library changes process-global
+    state one-way (the AES fallback): every ordered pair [a, b] of a document family is extracted in a FRESH
+    interpreter and each digest is compared with the document's isolated baseline (= history [] in a fresh
+    interpreter).  `installers` are (slow) documents used only in first position."""
+    from concurrent.futures import ThreadPoolExecutor
+    jobs = [[a, b] for a in family + installers for b in family if a != b]
+    jobs += [[a, a] for a in family]
+
+    def one(job):
+        p = subprocess.run([sys.executable, "-c", _HISTORY_SNIPPET], input=json.dumps(job), text=True, capture_output=True,
+                           timeout=300, env=dict(os.environ))
+        m = re.search(r"RESULT(.*)", p.stdout)
+        return job, (json.loads(m.group(1)) if m else None), p.stderr[-200:]
+    with ThreadPoolExecutor(max_workers=6) as ex:
+        results = list(ex.map(one, jobs))
+    broken, hits = [], {}
+    for job, res, err in results:
+        if res is None:
+            broken.append(f"{[Path(j).name for j in job]}: {err}")
+            continue
+        ctx.case(("fresh-history", tuple(Path(j).name for j in job)), True, kind="fresh-process-history")
+        for i, (d, got) in enumerate(zip(job, res)):
+            if got != base.get(d):
+                hits.setdefault(d, []).append((i, job, got))
+    for d, hs in hits.items():
+        i, job, got = min(hs, key=lambda h: (h[0], h[1]))
+        ctx.finding(f"history-dependent:{Path(d).name}",
+                    f"in a fresh process {Path(d).name} gives {got} after the history {[Path(j).name for j in job[:i]]}, "
+                    f"and {base.get(d)} when extracted first ({len(hs)} of {len(jobs)} histories differ)",
+                    {"fresh_process": True, "history": job[:i], "document": d, "got": got, "baseline": base.get(d),
+                     "differing_histories": [[Path(j).name for j in h[1]] for h in hs[:12]]})
+    ctx.obligation("fresh-process-history-subprocesses-completed", not broken, "; ".join(broken[:3]))
 
 
 def write_damaged_files(fx, tmpdocs):
@@ -2217,7 +2335,7 @@ def _run(ctx, tmproot, tmpdocs):
         "C15_patch_inside_wrapped", "C15_patch_no_deadlock", "C15_sequential_residue_free", "C15_memo_transparent",
         "C15_round_keys_atomic_is_memo", "C15_round_key_cache_race_refuted", "C15_font_cache_transparent_refuted",
         "C15_font_cache_keyed_transparent", "C15_aes_patch_residue_refuted", "C15_aes_result_history_refuted",
-        "C15_aes_result_history_independent"])
+        "C15_aes_result_history_independent", "C15_aes_guard_complete_independent", "C15_aes_guard_incomplete_refuted"])
     ctx.prove("C15/Inst.v", ["Gen/C15Skeleton.vo", "C15/Corr.vo", "C15/ProofsPatch.vo"], expected=[
         "C15_skeleton_is_locked_protocol", "C15_skeleton_restored", "C15_skeleton_inside_wrapped",
         "C15_single_patch_target", "C15_skeleton_safe_k2", "C15_skeleton_safe_k3_after_history"])
@@ -2230,7 +2348,7 @@ def _run(ctx, tmproot, tmpdocs):
     special = {}
     if wirecard:
         made = make_documents(wirecard, tmpdocs, ctx.tier)
-        special.update({k: v for k, v in made.items() if k in ("font_variant", "enc_aes-256", "enc_aes-128")})
+        special.update({k: v for k, v in made.items() if k == "font_variant" or k.startswith("enc_") and k != "enc_error"})
         special["wirecard"] = wirecard
         ctx.extra["made_documents"] = {k: (v if k.endswith("error") else Path(v).name) for k, v in made.items()}
     g = Path(tmpdocs) / "garbage.pdf"
@@ -2261,6 +2379,12 @@ def _run(ctx, tmproot, tmpdocs):
     shared_mutable_inventory(ctx)
     import_order_checks(ctx, fx, tmpdocs, write_damaged_files(fx, tmpdocs))
     tm["inventories+import-order"] = round(time.time() - t1, 1); t1 = time.time()
+    enc_family = [v for k, v in sorted(special.items()) if k.startswith("enc_") and "aes-256" not in k and v in base]
+    enc_family += [d for d in docs if "password_protected" in d and d.endswith(".pdf")]
+    enc_slow = [v for k, v in sorted(special.items()) if k.startswith("enc_aes-256") and v in base]
+    fresh_process_history_checks(ctx, enc_family + ([] if ctx.tier == "quick" else enc_slow),
+                                 enc_slow[:1] if ctx.tier == "quick" else [], base)
+    tm["fresh-histories"] = round(time.time() - t1, 1); t1 = time.time()
     formula_concurrency_checks(ctx, tmpdocs, base)
     tm["formulas"] = round(time.time() - t1, 1); t1 = time.time()
     if sk is not None:
